@@ -9,7 +9,9 @@ L2 standard spelling: every atom token the encoder can print is in the canonical
 L3 re-readable: every atom the decoder's writer can print is accepted by the SMILES atom reader
 L4 what strict=True accepts is within capacity with explicit hydrogens counted (the comparator rule of C06/Q1), so an
    accepted atom is not one the decoder refuses for its hydrogens
-Not decided: encoder(decoder(encoder(s))) == encoder(s) (traversal orders).
+L5 the decoder's atom-symbol reader drops no written field: every capture group that is non-empty on a path feeds a field
+   of the atom built on that path
+Not decided: encoder(decoder(encoder(s))) == encoder(s) beyond atom spelling (traversal orders).
 """
 import ast
 import string
@@ -151,6 +153,9 @@ def run(ctx, rep):
     # (capacity counts explicit hydrogens): the acceptance comparator of C06/Q1, shared
     from rules.C06 import check_acceptance
     check_acceptance(ctx, rep, "L4")
+    # L5: what the decoder reads back from an atom symbol keeps every written field (isotope 0, H0 ... included), so the
+    # decoded SMILES re-encodes to the same symbol
+    symlang.check_reader_keeps_groups(ctx, rep, "L5")
     rep.analysed.update({"abstract_reader_atoms": enc["inner"]["n_atoms"], "decoder_atom_dfa_states": len(dec["dfa"].trans),
                          "encoder_atom_dfa_states": len(enc["dfa"].trans)})
 
